@@ -122,6 +122,14 @@ def pairs(rng, focus, n):
             out.append(("comment-line-break", x, v, envs_for(["A"])))
         elif focus == "invalid":
             t1 = _prog(salt=a)
+            if idx % 4 == 0 and t1.isascii():
+                # same length: one character replaced (the closing brace, a keyword letter, a quote)
+                pos = rng.choice([len(t1) - 1, t1.index("splitters"), t1.index("weighted") + 2, t1.index('"')])
+                t2 = t1[:pos] + rng.choice("@;.=") + t1[pos + 1:]
+                import recogniser
+                if not recogniser.accepts(t2):
+                    out.append(("invalid-same-length", t1, t2, envs_for(["A"])[:6]))
+                    continue
             suf = rng.choice(INVALID_SUFFIX)
             where = rng.choice(["end", "mid", "start"])
             t2 = t1 + suf if where == "end" else suf.strip() + " " + t1 if where == "start" else t1.replace(" splitters", suf + " splitters", 1)
@@ -130,6 +138,148 @@ def pairs(rng, focus, n):
                 continue
             out.append(("invalid", t1, t2, envs_for(["A"])[:6]))
     return out
+
+
+def _volatile(ctx, focus, kind, t1, t2, envs):
+    """the same pair once more with both texts passed as TEMPORARIES: the evaluator is built from a string nobody else
+    holds, the string is dropped and collected, and the second text is a new string that the allocator placed at the freed
+    address (same length, same character width).  Anything that remembers a text by `id()` instead of by content confuses them."""
+    import gc
+    from pyab_experiment.experiment_evaluator import ExperimentEvaluator
+    if len(t1) != len(t2) or t1.isascii() != t2.isascii() or max(map(ord, t1)) > 0xFFFF or max(map(ord, t2)) > 0xFFFF or t1 == t2:
+        return
+    s1 = "".join([t1[:3], t1[3:]])
+    old = id(s1)
+    try:
+        ev, _ = common.quiet(lambda: ExperimentEvaluator(s1))
+    except Exception:  # noqa
+        return
+    del s1
+    gc.collect()
+    keep, c = [], None
+    for _ in range(300):
+        c = "".join([t2[:3], t2[3:]])
+        if id(c) == old:
+            break
+        keep.append(c)
+    else:
+        ctx.count("twin:volatile:address-not-recycled")
+        return
+    ctx.count("twin:volatile:address-recycled")
+    try:
+        common.quiet(lambda: ev.recompile(c))
+        rec = "ok"
+    except Exception as ex:  # noqa
+        rec = {"e": common.classify_exc(ex)}
+    hist = {"history": [["new", 0, t1], ["recompile", 0, t2]] + [["call", 0, common.enc_env(e)] for e in envs[:2]], "kind": kind + "+recycled-address", "focus": focus,
+            "note": "both texts were temporaries; the second one was allocated at the address of the first (dropped and collected) one"}
+    if focus == "invalid":
+        if rec == "ok":
+            ctx.violation("recompile() of a text that is no experiment returns silently when that text is a new string object at the address of the "
+                          f"(freed) text the evaluator was built from: {t2[-50:]!r}", dict(hist, recompile=rec))
+        return
+    fresh = _fresh(t2, envs[:6])
+    if isinstance(fresh, dict) or rec != "ok":
+        return
+    for e, f_ in zip(envs[:6], fresh):
+        a = common.outcome_of(lambda e=e: ev(**e))
+        if a != f_:
+            ctx.violation(f"after recompile() with a different text of the same length ({kind}, {focus}) passed as a new string object at the address of the "
+                          f"(freed) first text, the evaluator answers {json.dumps(a)[:80]} on {json.dumps(common.enc_env(e))[:100]}; an evaluator built from that text "
+                          f"answers {json.dumps(f_)[:80]}", dict(hist, env=common.enc_env(e), impl=a, fresh=f_))
+            return
+
+
+def checksum_function():
+    """the change-detection digest of `recompile` as a function of the text, cut out of the implementation's own source: the
+    simple statements that precede the first `if` mentioning `self._checksum`, executed with `source_code` bound.  None when the
+    code does not have that shape."""
+    import ast
+    import inspect
+    import textwrap
+    from pyab_experiment import experiment_evaluator as evmod
+    try:
+        fn = ast.parse(textwrap.dedent(inspect.getsource(evmod.ExperimentEvaluator.recompile))).body[0]
+        param = [a.arg for a in fn.args.args if a.arg != "self"][0]
+    except Exception:  # noqa
+        return None
+    prefix, target = [], [None]
+
+    def mentions(node):
+        return any(isinstance(n, ast.Attribute) and n.attr == "_checksum" for n in ast.walk(node))
+
+    def walk(body):
+        for st in body:
+            if isinstance(st, ast.If) and mentions(st.test):
+                names = [n.id for n in ast.walk(st.test) if isinstance(n, ast.Name) and n.id != "self"]
+                target[0] = names[0] if names else None
+                return True
+            if isinstance(st, (ast.Try, ast.With)):
+                if walk(st.body):
+                    return True
+                continue
+            if isinstance(st, (ast.Assign, ast.AnnAssign, ast.AugAssign)) and not mentions(st):
+                prefix.append(st)
+            elif isinstance(st, ast.Expr) and isinstance(st.value, ast.Constant):
+                continue
+        return False
+
+    if not walk(fn.body) or target[0] is None:
+        return None
+    code = compile(ast.fix_missing_locations(ast.Module(body=prefix, type_ignores=[])), "<checksum-prefix>", "exec")
+    glob = dict(vars(evmod))
+
+    def digest(text):
+        ns = {param: text}
+        exec(code, glob, ns)
+        return ns[target[0]]
+    try:
+        if digest("abc") == digest("abd") and digest("abc") == digest("xyz"):
+            return None
+    except Exception:  # noqa
+        return None
+    return digest
+
+
+def birthday(ctx, n=1 << 18):
+    """collisions of the implementation's own change-detection digest among n ordinary experiments (a digest narrowed to 32
+    bits has dozens among 2^18 texts; MD5 has none): each colliding pair is then run through a real evaluator"""
+    from pyab_experiment.experiment_evaluator import ExperimentEvaluator
+    digest = checksum_function()
+    if digest is None:
+        ctx.count("birthday:digest-not-extractable")
+        return
+    seen, pairs = {}, []
+    try:
+        for k in range(n):
+            t = 'def bd { salt: "rollout-%d" splitters: u return "a" weighted %d, "b" weighted %d }' % (k, 1 + k % 97, 1 + (k * 7) % 89)
+            d = digest(t)
+            if d in seen and seen[d] != t:
+                pairs.append((seen[d], t))
+                if len(pairs) >= 3:
+                    break
+            else:
+                seen[d] = t
+    except Exception as ex:  # noqa
+        ctx.notes.append("birthday search: digest raised " + repr(ex)[:120])
+        return
+    ctx.count("birthday:texts", len(seen))
+    ctx.count("birthday:collisions", len(pairs))
+    units = ["user_%d" % i for i in range(300)]
+    for t1, t2 in pairs:
+        ev, _ = common.quiet(lambda: ExperimentEvaluator(t1))
+        try:
+            common.quiet(lambda: ev.recompile(t2))
+        except Exception:  # noqa
+            continue
+        fresh, _ = common.quiet(lambda: ExperimentEvaluator(t2))
+        bad = [u for u in units if ev(u=u) != fresh(u=u)]
+        if bad:
+            ctx.violation(f"two ordinary experiments with the same change-detection digest: after new(T1); recompile(T2) the evaluator still answers as T1 "
+                          f"({len(bad)} of {len(units)} units differ from an evaluator built from T2): T1 = {t1[:70]!r}…, T2 = {t2[:70]!r}…",
+                          {"history": [["new", 0, t1], ["recompile", 0, t2], ["call", 0, common.enc_env({"u": bad[0]})]], "kind": "digest-collision",
+                           "env": common.enc_env({"u": bad[0]}), "impl": common.outcome_of(lambda: ev(u=bad[0])), "fresh": common.outcome_of(lambda: fresh(u=bad[0]))})
+            return
 
 
 def _fresh(text, envs):
@@ -146,6 +296,9 @@ def run(ctx, focuses, n, with_model=True):
     the recompile with (i) the Lean model's answers for T2 and (ii) a fresh evaluator built from T2."""
     from pyab_experiment.experiment_evaluator import ExperimentEvaluator
     rng = ctx.rng
+    if not with_model or "trivia" in focuses:
+        # (always in C11's own run, otherwise only when the deeper search was triggered)
+        birthday(ctx, (1 << 18) if (not with_model or ctx.tier == "thorough") else (1 << 17))
     plan = []
     for f in focuses:
         plan += [(f,) + p for p in pairs(rng, f, n)]
@@ -159,6 +312,9 @@ def run(ctx, focuses, n, with_model=True):
     for (focus, kind, t1, t2, envs), m in zip(plan, models):
         ctx.count("twin:" + focus + ":" + kind.split("+")[0])
         ctx.case(("twin", t1, t2), True)
+        _volatile(ctx, focus, kind, t1, t2, envs)
+        if ctx.violations and ctx.violations[-1]["replay"].get("note"):
+            continue
         try:
             ev, _ = common.quiet(lambda: ExperimentEvaluator(t1))
         except Exception as ex:  # noqa
